@@ -39,7 +39,7 @@ import (
 	"github.com/golang/protobuf/proto"
 )
 
-var e2eProps = []string{"c02", "c06", "c07", "c08", "c10", "c15", "c16", "c19"}
+var e2eProps = []string{"c02", "c06", "c07", "c08", "c10", "c15", "c16", "c17", "c19"}
 
 func e2eBuild(t *testing.T, dir, name string) (string, error) {
 	bin := filepath.Join(dir, name)
@@ -114,7 +114,7 @@ func TestE2E(t *testing.T) {
 			return
 		}
 	}
-	cmd := exec.Command("unshare", "-n", os.Args[0], "-test.run", "^TestE2E$", "-test.timeout", "300s")
+	cmd := exec.Command("unshare", "-n", "-m", os.Args[0], "-test.run", "^TestE2E$", "-test.timeout", "300s")
 	cmd.Env = append(os.Environ(), "E2E_INNER=1", "E2E_DIR="+dir, "VERIF_OUT="+outDir(t))
 	out, err := cmd.CombinedOutput()
 	os.WriteFile(filepath.Join(dir, "inner.log"), out, 0o644)
@@ -241,6 +241,8 @@ func e2eInner(t *testing.T) {
 	defer c.close(t, "e2e-client")
 	cs := newCaseWriter(t, "e2e-server")
 	defer cs.close(t, "e2e-server")
+	cr := newCaseWriter(t, "e2e-resolv")
+	defer cr.close(t, "e2e-resolv")
 	bad := func(p, kind, format string, a ...interface{}) { logs[p].add(kind, format, a...) }
 	seen := func(p string) { atomic.AddInt64(&logs[p].n, 1) }
 	r := newRand(77)
@@ -406,8 +408,17 @@ func e2eInner(t *testing.T) {
 		}
 	}
 
+	// the client maintains resolv.conf itself (-resolvconf: its hook is "psa-dhcpc -syshook"): /etc of this private mount
+	// namespace is an empty directory of the run
+	cliArgs := []string{"-ifname", "veth1"}
+	etc := filepath.Join(dir, "etc")
+	os.MkdirAll(etc, 0o755)
+	privateEtc := exec.Command("mount", "--bind", etc, "/etc").Run() == nil
+	if privateEtc {
+		cliArgs = append(cliArgs, "-resolvconf")
+	}
 	// the client acquires a lease
-	cli, cliLog := start("psa-dhcpc", "-ifname", "veth1")
+	cli, cliLog := start("psa-dhcpc", cliArgs...)
 	defer cli.Process.Kill()
 	configured := func() string {
 		for _, l := range strings.Split(ipOut("-4", "-o", "addr", "show", "dev", "veth1"), "\n") {
@@ -581,6 +592,32 @@ func e2eInner(t *testing.T) {
 	}
 	checkIface("after the first ACK")
 	checkLifetime("after the first ACK")
+	// C17 end to end: ACK -> interface configuration -> hook environment -> psa-dhcpc -syshook -> /etc/resolv.conf
+	checkResolv := func(when string) {
+		if !privateEtc || lastAck == nil {
+			return
+		}
+		seen("c17")
+		var file []byte
+		for end := time.Now().Add(3 * time.Second); time.Now().Before(end); time.Sleep(100 * time.Millisecond) {
+			if b, err := os.ReadFile("/etc/resolv.conf"); err == nil && len(b) > 0 {
+				file = b
+				break
+			}
+		}
+		if file == nil {
+			bad("c17", "e2e-resolvconf", "%s: no /etc/resolv.conf although the ACK names a DNS server\n%s", when, tailStr(cliLog.String(), 600))
+			return
+		}
+		if ents, _ := os.ReadDir("/etc"); len(ents) != 1 {
+			bad("c17", "e2e-resolvconf", "%s: %d entries in /etc, only resolv.conf is expected (temporary files left?)", when, len(ents))
+		}
+		// the file the composition of the Coq functions yields for exactly this configuration (tag 1706), and its grammar (1720)
+		x := &c17If{router: []byte{10, 77, 0, 1}, ip: ip4(lastAck.msg.yiaddr), mask: []byte{255, 255, 255, 0}, domain: "e2e.test", mtu: 0, leaseS: 60, dns: [][]byte{{10, 77, 0, 53}}}
+		cr.add(1706, "e2e-resolvconf", true, x.rawArgs(), args(L{1}, B(file)))
+		cr.add(1720, "e2e-resolvconf", true, args(B(file)), args(L{1}))
+	}
+	checkResolv("after the first ACK")
 	seen("c19")
 	srvQuiet, cliQuiet := stableSockets(srv.Process.Pid), stableSockets(cli.Process.Pid)
 	if srvQuiet != srvBase {
